@@ -422,9 +422,16 @@ def calls_in(node, name=None):
 
 
 def kw(call, name):
+    """The argument bound to parameter `name`: given by keyword, or (after normalisation N2, which makes leading keywords
+    positional) at the position every repository definition of the callee gives that parameter."""
     for k in call.keywords:
         if k.arg == name:
             return k.value
+    from .model import param_position
+
+    i = param_position(call, name)
+    if i is not None and i < len(call.args) and not any(isinstance(a, ast.Starred) for a in call.args[: i + 1]):
+        return call.args[i]
     return None
 
 
@@ -689,6 +696,12 @@ def enclosing_handler(node):
 _FLIP = {ast.Gt: ast.Lt, ast.GtE: ast.LtE}
 
 
+def _norm_expected(node):
+    from .model import _positionalise, SIGS
+
+    return _positionalise(node, SIGS)
+
+
 def _clone(node):
     """A private copy of an AST fragment.  (copy.deepcopy would follow the `_parent` / `_module` links the model adds and
     copy the whole module.)"""
@@ -722,7 +735,7 @@ def ctext(node):
 
 def ctext_of(text):
     """Canonical text of a source fragment given as text (an expression or a statement)."""
-    tree = ast.parse(text.strip())
+    tree = _norm_expected(ast.parse(text.strip()))
     n = tree.body[0]
     if isinstance(n, ast.Expr):
         n = n.value
@@ -824,7 +837,7 @@ def role_text(fn, expr, depth=6, params_as=None):
     import copy
 
     if isinstance(expr, str):
-        node = ast.parse(expr.strip(), mode="eval").body
+        node = _norm_expected(ast.parse(expr.strip(), mode="eval")).body
         fn = None
     else:
         node = _clone(expr)
